@@ -231,6 +231,24 @@ FailOnApplied(D, O) ==
   \A t \in Rng(O.tk) : (D.tasks[t.name].failOn /\ t.state \in Final /\ D.tasks[t.name].retry = 0 /\ D.tasks[t.name].items = -1) =>
      t.state # "SUCCESS"
 
+(* ------------------------------- C20 ---------------------------------- *)
+Expired(a, now, thr) == a.state = "RUNNING" /\ a.isSync /\ a.hb >= 0 /\ a.hb < now - thr
+\* a checker pass fails exactly the running synchronous actions whose last heartbeat (or first-heartbeat
+\* deadline) is older than max_missed * interval, with the heartbeat error
+ExpiredFailed(P, O, ev, thr) ==
+  (ev.kind = "hb" /\ ev.exc = "none") =>
+     \A a \in Rng(P.ax) : Expired(a, ev.now, thr) =>
+        (Has(Rng(O.ax), a.sid) => By(Rng(O.ax), a.sid).state = "ERROR")
+NeverExpireFresh(P, O, ev, thr) ==
+  (ev.kind = "hb") =>
+     \A a \in Rng(P.ax) : ~Expired(a, ev.now, thr) =>
+        (Has(Rng(O.ax), a.sid) => By(Rng(O.ax), a.sid).state = a.state)
+\* at rest no task is left RUNNING although all of its actions / sub-workflows have finished
+NoStuckTaskAtRest(O) ==
+  O.pend.quiet => \A t \in Rng(O.tk) :
+     (t.state = "RUNNING" /\ By(Rng(O.wf), t.wf).state = "RUNNING") =>
+        (Kids(O, t.sid) = {} \/ \E a \in Kids(O, t.sid) : a.state \notin Final)
+
 (* ------------------------------- C12 ---------------------------------- *)
 Ancestors(O, w) ==       \* enclosing executions of execution w (via parent tasks), w included
   LET RECURSIVE Up(_)
